@@ -211,14 +211,16 @@ DecodeVerdict(r) ==         \* r.kind, r.input, r.n (options available, entries 
        ELSE IF r.value # ValueOf(r.kind, d) THEN "decoded_value_differs" ELSE ""
 
 EncodeAny(kind, v) == CASE kind = "msg" -> EncMsg(v) [] kind = "sd" -> EncSD(v) [] kind = "option" -> EncOption(v) [] kind = "entry" -> EncEntry(v)
-CanonVerdict(r) ==          \* r.kind, r.input, r.n, r.out2 (outcome of build), r.bytes2, r.out3, r.value3, r.rest3
+CanonVerdict(r) ==          \* r.kind, r.input, r.n, r.out (= "ok"), r.value, r.rest, r.out2 (outcome of build), r.bytes2, r.out3, r.value3, r.rest3
+  \* judged on the implementation's OWN first decode (r.value): whatever it accepts must survive the cycle;
+  \* where the TLA+ decoder accepts too, its value is the reference for the re-encoded bytes as well
   LET d == DecodeAny(r.kind, r.input, r.n) IN
-  IF ~d.ok THEN ""                                       \* not an accepted input
-  ELSE IF r.out2 # "ok" THEN "decoded_value_cannot_be_encoded:" \o r.out2
+  IF r.out2 # "ok" THEN "decoded_value_cannot_be_encoded:" \o r.out2
   ELSE IF r.out3 # "ok" THEN "re-encoded_bytes_do_not_decode:" \o r.out3
   ELSE IF r.rest3 # <<>> THEN "re-encoded_bytes_leave_a_rest"
-  ELSE IF r.value3 # ValueOf(r.kind, d) THEN "second_decode_differs_from_first"
-  ELSE IF r.kind = "msg" /\ r.bytes2 # SubSeq(r.input, 1, d.used) THEN "re-encoded_message_differs_from_consumed_input"
+  ELSE IF r.value3 # r.value THEN "second_decode_differs_from_first"
+  ELSE IF r.kind = "msg" /\ r.bytes2 # SubSeq(r.input, 1, Len(r.input) - Len(r.rest)) THEN "re-encoded_message_differs_from_consumed_input"
+  ELSE IF ~d.ok THEN ""
   ELSE LET d2 == DecodeAny(r.kind, r.bytes2, r.n) IN
        IF ~d2.ok \/ ValueOf(r.kind, d2) # ValueOf(r.kind, d) THEN "re-encoded_bytes_decode_differently_(spec_decoder)" ELSE ""
 
